@@ -1,6 +1,199 @@
 package verifharness
 
-import "fmt"
+import (
+	"encoding/hex"
+	"encoding/json"
+	"fmt"
+	"math/rand"
+	"strings"
 
-// C15 recorder (being written).
-func markupFuzz(m map[string]string) error { return fmt.Errorf("markup fuzz: not implemented yet") }
+	"github.com/remieven/ysgo/markup"
+)
+
+// Property C15: markup parsing is total and its results are safe to use.
+// Inputs: token-level assemblies of marker fragments, mutated valid lines, arbitrary
+// bytes (invalid UTF-8 included), the lines enumerated by MC_Markup (alphabet "s").
+// Only safety facts are recorded; they are judged by spec/MarkupSafetyTrace.tla.
+
+var mkFuzzTokens = []string{
+	"[", "]", "/", "=", `"`, `\`, `\[`, `\]`, " ", "\t", " ", "　", ":", ": ", "%", ".", "-",
+	"a", "b", "nomarkup", "select", "plural", "ordinal", "character", "value", "one", "two", "few", "other",
+	"trimwhitespace", "true", "false", "name", "contents",
+	"0", "1", "2", "11", "12", "1.05", "007", "99999999999999999999",
+	"é", "中", "😀", "x", "y z", "Name: ",
+	"[a]", "[/a]", "[b]", "[/b]", "[/]", "[a/]", "[a /]", "[b x=1/]", "[a=1]", "[a p=", "[a p=\"q", "[a p=1.", "[a p=1.5 ",
+	"[nomarkup]", "[/nomarkup]", "[ / nomarkup ]", "[select value=1 1=x /]", "[select value=a /]", "[select",
+	"[plural value=1 one=\"%\" other=y/]", "[plural value=x one=a/]", "[ordinal value=2 two=\"%nd\"/]", "[ordinal value=1.5 one=a/]",
+	"[a trimwhitespace=false/]", "[a trimwhitespace=3/]", "[a trimwhitespace=true]", "[character name=x]", "[/character]",
+	"\xff", "\xc3", "\xe4\xb8", "\xf0\x9f\x98", "\x00", "\x80",
+}
+
+func mkFuzzAssembly(rnd *rand.Rand, maxBytes int) string {
+	var b strings.Builder
+	n := 1 + rnd.Intn(14)
+	for i := 0; i < n; i++ {
+		t := mkFuzzTokens[rnd.Intn(len(mkFuzzTokens))]
+		if b.Len()+len(t) > maxBytes {
+			break
+		}
+		b.WriteString(t)
+	}
+	return b.String()
+}
+
+func mkPickByte(rnd *rand.Rand, s string) byte { return s[rnd.Intn(len(s))] }
+
+func mkFuzzBytes(rnd *rand.Rand, maxBytes int) string {
+	n := rnd.Intn(maxBytes + 1)
+	b := make([]byte, n)
+	for i := range b {
+		switch rnd.Intn(6) {
+		case 0:
+			b[i] = mkPickByte(rnd, "[]/=\\\": \t%.")
+		case 1:
+			b[i] = byte(0x80 + rnd.Intn(0x80))
+		case 2:
+			b[i] = mkPickByte(rnd, "abnomarkupselect019")
+		default:
+			b[i] = byte(rnd.Intn(256))
+		}
+	}
+	return string(b)
+}
+
+func mkFuzzMutate(rnd *rand.Rand, line string, maxBytes int) string {
+	b := []byte(line)
+	for k := 1 + rnd.Intn(3); k > 0 && len(b) > 0; k-- {
+		i := rnd.Intn(len(b))
+		switch rnd.Intn(5) {
+		case 0:
+			b = append(b[:i], b[i+1:]...)
+		case 1:
+			b[i] = mkPickByte(rnd, "[]/=\\\": \t")
+		case 2:
+			ins := mkFuzzTokens[rnd.Intn(len(mkFuzzTokens))]
+			b = append(b[:i], append([]byte(ins), b[i:]...)...)
+		case 3:
+			b = b[:i]
+		default:
+			b[i] = byte(rnd.Intn(256))
+		}
+	}
+	if len(b) > maxBytes {
+		b = b[:maxBytes]
+	}
+	return string(b)
+}
+
+type mkSafetyEvent struct {
+	Ev      string   `json:"ev"`
+	ID      int      `json:"id"`
+	Kind    string   `json:"kind"`
+	Hex     string   `json:"hex"`
+	Outcome string   `json:"outcome"`
+	TextLen int      `json:"textLen"`
+	Attrs   [][2]int `json:"attrs"` // position, length
+	Tfa     []int    `json:"tfa"`   // 0 ok, 1 TextForAttribute panicked
+}
+
+func mkSafetyRun(id int, kind, input string) mkSafetyEvent {
+	r := mkParse(&markup.LineParser{}, input)
+	ev := mkSafetyEvent{Ev: "fuzz", ID: id, Kind: kind, Hex: hex.EncodeToString([]byte(input)), Outcome: r.Outcome,
+		TextLen: len(r.Text), Attrs: [][2]int{}, Tfa: []int{}}
+	for _, a := range r.Attrs {
+		ev.Attrs = append(ev.Attrs, [2]int{a.Pos, a.Len})
+		if len(a.Tfa) == 1 && a.Tfa[0] == -1 {
+			ev.Tfa = append(ev.Tfa, 1)
+		} else {
+			ev.Tfa = append(ev.Tfa, 0)
+		}
+	}
+	return ev
+}
+
+func markupFuzz(m map[string]string) error {
+	out, err := newNDJSON(m["out"])
+	if err != nil {
+		return err
+	}
+	id := 0
+	counts := map[string]int{}
+	timeouts := 0
+	emit := func(kind, input string) error {
+		if timeouts >= 5 { // every further input would cost the watchdog delay again
+			return nil
+		}
+		id++
+		counts[kind]++
+		ev := mkSafetyRun(id, kind, input)
+		if ev.Outcome == "timeout" {
+			timeouts++
+		}
+		return out.Write(ev)
+	}
+	if f := m["inputs"]; f != "" { // replay of stored inputs: [{"kind":..,"hex":..}]
+		raws, err := readNDJSON(f)
+		if err != nil {
+			return err
+		}
+		for _, raw := range raws {
+			var in struct {
+				Kind string `json:"kind"`
+				Hex  string `json:"hex"`
+			}
+			if err := json.Unmarshal(raw, &in); err != nil {
+				return err
+			}
+			b, err := hex.DecodeString(in.Hex)
+			if err != nil {
+				return err
+			}
+			if err := emit(in.Kind, string(b)); err != nil {
+				return err
+			}
+		}
+	} else {
+		n := argInt(m, "n", 20000)
+		maxBytes := argInt(m, "maxbytes", 64)
+		rnd := rand.New(rand.NewSource(Seed()))
+		g := &mkGen{rnd: rand.New(rand.NewSource(Seed() + 3))}
+		if f := m["beh"]; f != "" { // every line enumerated by the model
+			raws, err := readNDJSON(f)
+			if err != nil {
+				return err
+			}
+			for i, raw := range raws {
+				var b mkBeh
+				if err := json.Unmarshal(raw, &b); err != nil {
+					return err
+				}
+				layout := mkLayout{}
+				if i%2 == 1 {
+					layout = mkLayout{rnd: rnd}
+				}
+				if err := emit("model", layout.line(b.Items)); err != nil {
+					return err
+				}
+			}
+		}
+		for i := 0; i < n; i++ {
+			switch i % 4 {
+			case 0, 1:
+				err = emit("assembly", mkFuzzAssembly(rnd, maxBytes))
+			case 2:
+				err = emit("mutated", mkFuzzMutate(rnd, mkLayout{rnd: rnd}.line(g.line(8, false)), 2*maxBytes))
+			default:
+				err = emit("bytes", mkFuzzBytes(rnd, maxBytes))
+			}
+			if err != nil {
+				return err
+			}
+		}
+	}
+	if err := out.Close(); err != nil {
+		return err
+	}
+	stats, _ := json.Marshal(map[string]any{"inputs": id, "kinds": counts, "stopped_after_timeouts": timeouts >= 5})
+	fmt.Println(string(stats))
+	return nil
+}
